@@ -86,7 +86,7 @@ def do_move_jobs():
             out.append(Job('do_move/%s/%s' % (cname, part), PTUS, [DO], h, 'h_do', contracts={DO: PRE_DO + ens},
                            enforce=DO, spec=SPEC, post_spec=POST, pre_text=GHOST + MOVE_CLASS, timeout=2400, flags=['--slice-formula'],
                            unwindset=loops_unwind([('Position__remove_piece', 11), ('Position__move_piece', 11)]),
-                           canary=(part == 'state'), backend=('cadical' if part == 'lists' else 'minisat'),
+                           canary=(part == 'state'), backend=('cadical' if part == 'lists' else 'minisat'), tier=('thorough' if part == 'lists' else 'quick'),
                            route='closed-by-complete-unwinding(11): piece lists have 10 slots; the three piece mutators are inlined (dfcc call replacement havocs byte slices of the 7.5 KB Position object and cost 5-10 M variables per query)',
                            replay=REPLAY_DO,
                            note='do_move == rules of chess; move class: %s; part of the postcondition: %s' % (cname, part)))
